@@ -258,6 +258,14 @@ func apiRun(op string, a []string) []string {
 		return []string{fromDec(d128.FromRat(new(big.Rat).SetFrac(n, d)))}
 	case "api.RatRoundTrip":
 		return []string{fromDec(d128.FromRat(toDec(a[0]).Rat(nil)))}
+	case "api.CmpFlags":
+		// the five CmpResult methods applied to what Cmp and CmpAbs return
+		x, y := toDec(a[0]), toDec(a[1])
+		var r []string
+		for _, c := range []d128.CmpResult{x.Cmp(y), x.CmpAbs(y)} {
+			r = append(r, sBool(c.Less()), sBool(c.LessOrEqual()), sBool(c.Equal()), sBool(c.GreaterOrEqual()), sBool(c.Greater()))
+		}
+		return r
 	case "api.PayloadString":
 		p, _ := strconv.ParseUint(a[0], 10, 64)
 		return []string{sBytes([]byte(d128.Payload(p).String()))}
